@@ -25,7 +25,9 @@ RULE = ("one run = 1-2 probe actors with drawn restart limit {0,1,3,None}, resta
         "invocation (0-4 await points; outcome return / Exception / BaseException / forever; reaction to cancellation) and a "
         "controller issuing 3-14 operations at drawn instants (incl. aimed into the restart delay and at the probe's await "
         "points); non-trivial = a failure or a stop/cancel happened while something was in flight; distinct = abstract digest "
-        "of enter/exit/controller-op sequence; model states = (running, in_restart_delay, last outcome) visited")
+        "of enter/exit/controller-op sequence; model states = (running, in_restart_delay, last outcome) visited"
+        " Also: up to 3 actors, optionally constructed with equal names; `async with` left normally or because the"
+        " body raised.")
 QUICK_RUNS = 6000
 THOROUGH_RUNS = 400_000
 EXPECT_PROBES = ["stop_during_restart_delay", "stop_during_run", "stop_before_start", "stop_after_completion",
